@@ -27,6 +27,10 @@ BUNDLES = {
     'W': dict(src='dtn://src/?w', ts=(T, 1), payload=b'pqrstu', mark=b'\x05', mark_crc=2),
     # an administrative record (status report) addressed to the node itself, fragmented on its way
     'A': dict(src='dtn://src/', ts=(T, 3), payload=admin_payload(1), mark=b'\x04', mark_crc=1, dest=NODE, flags=B.FLAG_ADMIN),
+    # the extension block of the first fragment carries reserved block-flag bits (and a CRC over them)
+    'V': dict(src='dtn://vsrc/', ts=(T, 1), payload=b'GHIJKL', mark=b'\x06', mark_crc=1, mark_flags=0x28),
+    # a bundle in transit (for another node): forwarded, never delivered here
+    'T': dict(src='dtn://src/', ts=(T, 7), payload=b'transit', mark=b'\x07', mark_crc=1, dest='dtn://far/x', transit=True),
 }
 
 
@@ -36,7 +40,7 @@ def frag(name, lo, hi):
                report_to='dtn:none', ts=b['ts'], lifetime=3600000, frag_offset=lo, total_adu=len(b['payload']))
     blocks = []
     if lo == 0:
-        blocks.append(dict(type=200, num=2, flags=0, crc_type=b['mark_crc'], data=b['mark']))
+        blocks.append(dict(type=200, num=2, flags=b.get('mark_flags', 0), crc_type=b['mark_crc'], data=b['mark']))
     blocks.append(dict(type=1, num=1, flags=0, crc_type=2, data=b['payload'][lo:hi]))
     return dict(primary=pri, blocks=blocks)
 
@@ -45,7 +49,7 @@ def whole(name):
     b = BUNDLES[name]
     pri = dict(flags=b.get('flags', 0), crc_type=1, dest=b.get('dest', 'dtn://node/app'), src=b['src'], report_to='dtn:none',
                ts=b['ts'], lifetime=3600000)
-    return dict(primary=pri, blocks=[dict(type=200, num=2, flags=0, crc_type=b['mark_crc'], data=b['mark']),
+    return dict(primary=pri, blocks=[dict(type=200, num=2, flags=b.get('mark_flags', 0), crc_type=b['mark_crc'], data=b['mark']),
                                     dict(type=1, num=1, flags=0, crc_type=2, data=b['payload'])])
 
 
@@ -62,6 +66,8 @@ def alphabet():
         ('Z[0,3)', 'Z', (0, 3), frag('Z', 0, 3)), ('Z[3,6)', 'Z', (3, 6), frag('Z', 3, 6)),
         ('A[0,h)', 'A', (0, AH), frag('A', 0, AH)), ('A[h,n)', 'A', (AH, AN), frag('A', AH, AN)), ('A', 'A', None, whole('A')),
         ('W[0,3)', 'W', (0, 3), frag('W', 0, 3)), ('W[3,6)', 'W', (3, 6), frag('W', 3, 6)),
+        ('V[0,3)', 'V', (0, 3), frag('V', 0, 3)), ('V[3,6)', 'V', (3, 6), frag('V', 3, 6)),
+        ('T', 'T', None, whole('T')),
     ]
 
 
@@ -71,7 +77,8 @@ ENC = [B.encode(a[3]) for a in ALPHA]
 
 class FragWorld(BpWorld):
     def __init__(self, params):
-        BpWorld.__init__(self, dict(node_id=NODE, rx_routes=[('^dtn://node/.*', 'deliver')], tx_routes=[]))
+        BpWorld.__init__(self, dict(node_id=NODE, rx_routes=[('^dtn://node/.*', 'deliver'), ('^dtn://.*', 'forward')],
+                                    tx_routes=[('^dtn://far/.*', 'dtn://next/', None)]))
         self.params.update(params)
         self.depth = 0
         self.history = []
@@ -107,7 +114,7 @@ class FragWorld(BpWorld):
                 self.cover[name] = set(range(len(BUNDLES[name]['payload'])))
             else:
                 self.cover[name].update(range(rng[0], rng[1]))
-            if self.cover[name] == set(range(len(BUNDLES[name]['payload']))):
+            if self.cover[name] == set(range(len(BUNDLES[name]['payload']))) and not BUNDLES[name].get('transit'):
                 self.complete[name] = True
             self.receive(ENC[event[1]])
             return self.judge(), True
@@ -132,6 +139,9 @@ class FragWorld(BpWorld):
                 out.append(self.v('delivery-of-unknown-bundle', dict(), repr(d)))
                 continue
             name = name[0]
+            if BUNDLES[name].get('transit'):
+                out.append(self.v('bundle-for-another-node-delivered-here', dict(bundle=name), repr(d['dest'])))
+                continue
             seen[name] = seen.get(name, 0) + 1
             payload = [bytes.fromhex(b[2]) for b in d['blocks'] if b[0] == 1]
             marks = [bytes.fromhex(b[2]) for b in d['blocks'] if b[0] == 200]
@@ -334,6 +344,13 @@ def scenarios(tier):
         out.append(dict(name='query-source/first-%s' % ALPHA[first][0], kind='graph',
                         params=dict(max_depth=depth + 1, letters=qs, prefix=[first]), dev_bound=0, use_snapshot=False,
                         liveness=False, max_states=400000, weight=3))
+    # a bundle in transit between the fragments of X (routing of the next fragment must not depend on it),
+    # and a first fragment whose extension block carries reserved block-flag bits under a CRC
+    tr = [3, 5, 18, 16, 17]
+    for first in tr:
+        out.append(dict(name='transit+reserved-flags/first-%s' % ALPHA[first][0], kind='graph',
+                        params=dict(max_depth=depth + 1, letters=tr, prefix=[first]), dev_bound=0, use_snapshot=False,
+                        liveness=False, max_states=400000, weight=3))
     out.append(dict(name='two-agents', kind='enum', runner='run_two_agents', params=dict(name='two-agents'), weight=3))
     for part in range(4):
         out.append(dict(name='sizes-%d/4' % (part + 1), kind='enum', runner='run_sizes', params=dict(name='sizes-%d/4' % (part + 1), part=part, parts=4), weight=6))
@@ -353,6 +370,7 @@ ASSUMPTIONS = [
     'six-octet payloads; fragmentations {[0,2),[2,4),[4,6)}, {[0,3),[2,5),[4,6)} and {[0,3),[3,6)} of X may be mixed; two look-alike bundles',
     'arrival histories of at most 4 (quick) / 5 (thorough) elements over the whole alphabet, 6 / 7 over X alone; idle callbacks interleaved in every order',
     'overlapping fragments of one bundle carry consistent octets',
+    'a bundle for another node (forwarded) interleaved with the fragments of X under overlapping receive routes; a fragmented bundle whose first-fragment extension block has reserved block-flag bits set under CRC-16',
     'sizes: application data units of 65535, 65536, 65537, 66000 and 131073 octets in two or three fragments cut at and next to 64 KiB, every arrival order',
     'long gaps: 0, 1, 255, 256, 257, 300 or 1100 other bundles between the completion of X and repeats of its fragments, or between its two halves',
 ]
